@@ -624,9 +624,47 @@ def check_d3(ctx, rep):
     trans = eff.transitive()
     specs = [("GlobalPlacer::run", ["cellX_", "cellY_"]),
              ("DetailedPlacer::run", ["cellX_", "cellY_", "cellOrientation_"])]
+
+    # classes that make up the algorithms' state: the two placers and everything they hold by value
+    state_classes = set()
+    stack = [CQ + "GlobalPlacer", CQ + "DetailedPlacer"]
+    while stack:
+        c = stack.pop()
+        if c in state_classes or c not in prog.records:
+            continue
+        state_classes.add(c)
+        for b in prog.records[c].get("bases", []):
+            stack.append(b if b.startswith(CQ) else CQ + b)
+        for name, fd in prog.records[c]["fields"].items():
+            t = qt(fd)
+            for q in prog.records:
+                if q not in state_classes and (short(q) in t.replace("coloquinte::", "")) and q != CQ + "Circuit":
+                    if short(q) in ("Rectangle", "Point", "Row", "CellPlacement") or "Parameters" in q:
+                        continue
+                    stack.append(q)
+
+    def pure_exporter(g):
+        """void function that (transitively) writes no member of an algorithm-state class: whatever it reads from the
+        Circuit cannot reach the algorithms' state."""
+        gw = {w for w in trans.get(g.key, {"writes": set()})["writes"] if any(w.startswith(c + "::") for c in state_classes)}
+        return not gw and g.type.split("(")[0].strip() == "void" and g.kind != "CXXConstructorDecl"
+
+    from .common import is_fixed_test
+    from .c03 import call_chain
     for entry, flds in specs:
         f = prog.func1(CQ + entry)
-        reach = {f.key} | trans[f.key]["calls"]
+        # reachability that does not look inside pure exporters
+        reach, stack, exporters = {f.key}, [f], set()
+        while stack:
+            h = stack.pop()
+            for _c, g in eff.callees(h):
+                if g.key in reach:
+                    continue
+                if pure_exporter(g):
+                    exporters.add(g.short)
+                    continue
+                reach.add(g.key)
+                stack.append(g)
         bad = []
         for k in reach:
             g = prog.funcs.get(k)
@@ -637,16 +675,15 @@ def check_d3(ctx, rep):
                 for x, u in s["reads"].get(CQ + "Circuit::" + fl, []):
                     owner = eff.func_of_node(x) or g
                     guards = ctx.guards(owner, x) or []
-                    from .common import is_fixed_test
                     if any(is_fixed_test(gc) and val is True for gc, val, _a, _b in guards):
                         continue
                     bad.append((g, x, fl))
         if bad:
             g, x, fl = bad[0]
-            from .c03 import call_chain
             rep.violation("D3", x, g, "%s reaches a read of Circuit::%s" % (entry, fl),
                           "placement coordinates exported for a callback can flow back into the algorithm via %s (%d read site(s))" % (
                               " -> ".join(call_chain(ctx, f, g)), len(bad)),
                           key="%s|reads back Circuit::%s in %s" % (entry, fl, g.short))
         else:
-            rep.holds("D3", f.decl, f, "no read of Circuit::{%s} reachable from %s" % (",".join(flds), entry), "%d functions reachable" % len(reach))
+            rep.holds("D3", f.decl, f, "no read of Circuit::{%s} reachable from %s outside pure exporters" % (",".join(flds), entry),
+                      "%d functions reachable; pure exporters not entered: %s" % (len(reach), sorted(exporters)))
